@@ -1,5 +1,35 @@
 // further case kinds of the correspondence harness (included by ivharness.cpp)
+
+// fp <id> <n> <nb> <dt> <fptype> <fptrack> ; extra = e1 qmin qmax pmin pmax ; data
+static void run_fp(const Case& c) {
+    uint32_t n = std::stoul(c.head[2]), nb = std::stoul(c.head[3]);
+    uint32_t dt = std::stoul(c.head[4]), fpt = std::stoul(c.head[5]), fptr = std::stoul(c.head[6]);
+    float e1 = c.extra[0];
+    PhaseSpace::resetSize(n, nb);
+    auto in = mkps(n, nb, c.data.data(), c.extra[1], c.extra[2], c.extra[3], c.extra[4]);
+    auto out = mkps(n, nb, nullptr, c.extra[1], c.extra[2], c.extra[3], c.extra[4]);
+    ProbeFP fp(in, out, n, n, static_cast<FokkerPlanckMap::FPType>(fpt),
+               static_cast<FokkerPlanckMap::FPTracking>(fptr), e1,
+               static_cast<FokkerPlanckMap::DerivationType>(dt), nullptr);
+    std::cout << "case " << c.id << '\n';
+    std::cout << "ruler " << hx(in->getDelta(1)) << ' ' << hx(in->getAxis(1)->zerobin());
+    for (uint32_t j = 0; j < n; j++) std::cout << ' ' << hx(in->p(j));
+    std::cout << '\n';
+    print_table(fp.table(), n, fp.ip());
+    fp.apply();
+    print_data("out", out->getData(), static_cast<size_t>(n) * n * nb);
+    if (!c.parts.empty()) {
+        std::cout << "parts";
+        for (auto p : c.parts) {
+            PhaseSpace::Position pos{p.first, p.second};
+            fp.applyTo(pos);
+            std::cout << ' ' << hx(pos.x) << ' ' << hx(pos.y);
+        }
+        std::cout << '\n';
+    }
+}
+
 static bool dispatch_more(const Case& c) {
-    (void)c;
+    if (c.kind == "fp") { run_fp(c); return true; }
     return false;
 }
